@@ -33,9 +33,13 @@ def list_jobs(tier):
     jobs = []
     for p in progs:
         for i, c in enumerate(cfgs):
-            if i and tier == "quick" and not (p.startswith("G/A5") or p.startswith("G/A6") or hash(p) % 3 == 0):
+            if c.get("enable_double_precision") and p.startswith("R/"):
+                continue  # registry callables are instantiated per precision: use their own _f64 variants below
+            if i and tier == "quick" and not (p.startswith("G/A5") or p.startswith("G/A6") or sum(map(ord, p)) % 3 == 0):
                 continue
             jobs.append(f"{i}|{p}")
+    f64 = [i for i in corpus.registry_ids(include_f64=True) if "_f64#" in i]
+    jobs += [f"0|{p}" for p in (f64[::9] if tier == "quick" else f64[::2])]
     return jobs
 
 
@@ -160,8 +164,11 @@ def run_job(job, tier):
     declared = int(p.config.get("opset", 23))
     enc = structural(model) + [x for x in c11.schema_problems(model, declared) if "does not exist at opset" not in x and "declares default opset" not in x]
     obs = observations(model) if declared <= c11.ORT_MAX else []
-    # opset-availability defects are C11's; everything else is reported here
-    obs = [o for o in obs if "No Op registered" not in o and "is not a registered function/op" not in o] if any("does not exist at opset" in x for x in c11.schema_problems(model, declared)) else obs
+    # not claimed: ONNX Runtime lacking a kernel for a valid ONNX node (double-precision Atan, ...)
+    obs = [o for o in obs if not (o.startswith("onnxruntime load") and "NOT_IMPLEMENTED" in o)]
+    # opset-availability defects are C11's: drop observations about operators C11 reports
+    missing_ops = {x.split(": ", 1)[1].split(" ")[0] for x in c11.schema_problems(model, declared) if "does not exist at opset" in x}
+    obs = [o for o in obs if not any(f"{op}" in o for op in missing_ops)]
     if enc and not obs and declared <= c11.ORT_MAX:
         return {"job": job, "status": "harness_error", "reason": "encoder refused a model that checker, strict inference and ORT accept: " + "; ".join(enc[:3])}
     if obs:
